@@ -105,11 +105,13 @@ func blockLevelLayoutSwitch(context *layoutContext, box_ bo.BlockLevelBoxITF, bo
 	} else if bo.FlexT.IsInstance(box_) {
 		box_, layout := flexLayout(context, box_, bottomSpace, skipStack, containingBlock,
 			pageIsEmpty, absoluteBoxes, fixedBoxes)
-		return box_.(bo.BlockLevelBoxITF), layout, -1 // flexLayout is type stable
+		out, _ := box_.(bo.BlockLevelBoxITF) // flexLayout is type stable, but may return nil
+		return out, layout, -1
 	} else if bo.GridT.IsInstance(box_) {
 		box_, layout := gridLayout(context, box_, bottomSpace, skipStack, containingBlock,
 			pageIsEmpty, absoluteBoxes, fixedBoxes)
-		return box_.(bo.BlockLevelBoxITF), layout, -1 // gridLayout is type stable
+		out, _ := box_.(bo.BlockLevelBoxITF) // gridLayout is type stable, but may return nil
+		return out, layout, -1
 	} else {
 		panic(fmt.Sprintf("Layout for %s not handled yet", box_))
 	}
